@@ -26,6 +26,7 @@ import (
 	"io"
 	"net/http"
 	"net/http/httptest"
+	"net/http/httptrace"
 	"strings"
 	"sync"
 	"testing"
@@ -251,6 +252,24 @@ type c16Case struct {
 	wbody    []byte
 	wcl      int64 // ContentLength as the server chain receives it (-1 = none declared)
 	captured bool
+	wireErr  bool // the server could not read the request body to its declared end
+	// what a transport-level replay would send (GetBody of the request handed to the transport)
+	tapped       bool
+	hasRewind    bool
+	rewind       []byte
+	rewindStable bool
+	outCL        int64
+	// replay scenario: the first attempt as received by the server before it dropped the connection
+	replay     bool
+	replayed   bool
+	replayFail string
+	warmFail   string
+	doFail     string
+	callerMutated bool
+	firstSeen  bool
+	firstCE    []string
+	firstBody  []byte
+	firstCL    int64
 	kind     int // 0 handler ran, 1 rejected, 2 panicked
 	status   int
 	ran      bool
@@ -263,17 +282,80 @@ type c16Case struct {
 type c16Capture struct {
 	next http.Handler
 	cs   *c16Case
+	mu   sync.Mutex
+	warm bool // answer the next request here (warm-up of a keep-alive connection)
+	drop bool // receive the next request completely, then drop the connection without answering
 }
 
 func (c *c16Capture) ServeHTTP(w http.ResponseWriter, r *http.Request) {
-	raw, _ := io.ReadAll(r.Body)
+	raw, rerr := io.ReadAll(r.Body)
 	_ = r.Body.Close()
+	c.mu.Lock()
+	warm, drop := c.warm, c.drop
+	c.warm, c.drop = false, false
+	c.mu.Unlock()
+	if warm {
+		w.WriteHeader(http.StatusNoContent)
+		return
+	}
+	if drop {
+		// fault injection: the transport sees a reused connection die before any response byte and
+		// (for a replayable request) rewinds the body with GetBody and sends the request again
+		c.cs.firstSeen = true
+		c.cs.firstCE = append([]string(nil), r.Header.Values("Content-Encoding")...)
+		c.cs.firstBody = raw
+		c.cs.firstCL = r.ContentLength
+		if hj, ok := w.(http.Hijacker); ok {
+			if conn, _, err := hj.Hijack(); err == nil {
+				_ = conn.Close()
+				return
+			}
+		}
+		panic("c16: cannot hijack")
+	}
+	if rerr != nil {
+		// the client broke the transfer off (e.g. declared length and body disagree)
+		c.cs.wireErr = true
+		w.WriteHeader(http.StatusBadRequest)
+		return
+	}
 	c.cs.captured = true
 	c.cs.wce = append([]string(nil), r.Header.Values("Content-Encoding")...)
 	c.cs.wbody = raw
 	c.cs.wcl = r.ContentLength
 	r.Body = io.NopCloser(bytes.NewReader(raw))
 	c.next.ServeHTTP(w, r)
+}
+
+// c16Tap sits where the package's round trippers hand the request to the transport: it records what a
+// transport-level replay of the outgoing request would send (GetBody), before and after the send.
+type c16Tap struct {
+	next http.RoundTripper
+	cs   *c16Case
+}
+
+func c16GetBody(req *http.Request) (has bool, data []byte) {
+	if req.GetBody == nil {
+		return false, nil
+	}
+	rc, err := req.GetBody()
+	if err != nil {
+		return true, []byte("c16: GetBody failed: " + err.Error())
+	}
+	data, _ = io.ReadAll(rc)
+	_ = rc.Close()
+	return true, data
+}
+
+func (tp *c16Tap) RoundTrip(req *http.Request) (*http.Response, error) {
+	cs := tp.cs
+	cs.tapped = true
+	cs.hasRewind, cs.rewind = c16GetBody(req)
+	cs.outCL = req.ContentLength
+	resp, err := tp.next.RoundTrip(req)
+	has2, again := c16GetBody(req)
+	cs.rewindStable = has2 == cs.hasRewind && bytes.Equal(again, cs.rewind)
+	return resp, err
 }
 
 type c16DirectRT struct {
@@ -384,7 +466,7 @@ func c16Run(t *testing.T, cs *c16Case) {
 	cc := NewDefaultClientConfig()
 	cc.Compression = configcompression.Type(cs.typ)
 	cc.CompressionParams = configcompression.CompressionParams{Level: configcompression.Level(cs.level)}
-	cc.DisableKeepAlives = true
+	cc.DisableKeepAlives = !(cs.replay && cs.net)
 	if err := cc.Validate(); err != nil {
 		cs.clientOK, cs.cstate = false, 1
 		return
@@ -398,7 +480,13 @@ func c16Run(t *testing.T, cs *c16Case) {
 
 	url := "http://c16.invalid/v1/x"
 	var ts *httptest.Server
-	var direct *c16DirectRT
+	var base http.RoundTripper // the transport below the package's round trippers
+	crt, compressing := client.Transport.(*compressRoundTripper)
+	if compressing {
+		base = crt.rt
+	} else {
+		base = client.Transport
+	}
 	if cs.net {
 		ts = httptest.NewUnstartedServer(nil)
 		srv.Handler = chain
@@ -406,19 +494,24 @@ func c16Run(t *testing.T, cs *c16Case) {
 		ts.Start()
 		defer ts.Close()
 		url = ts.URL + "/v1/x"
-	} else {
-		direct = &c16DirectRT{h: chain}
-		if crt, ok := client.Transport.(*compressRoundTripper); ok {
-			crt.rt = direct
-		} else {
-			client.Transport = direct
+		if tr, ok := base.(*http.Transport); ok {
+			defer tr.CloseIdleConnections()
 		}
+	} else {
+		base = &c16DirectRT{h: chain}
+	}
+	tap := &c16Tap{next: base, cs: cs}
+	if compressing {
+		crt.rt = tap
+	} else {
+		client.Transport = tap
 	}
 	if cs.poison {
 		// a request whose body fails half-way: compress() returns the copy error and puts the
 		// half-used writer back into the (package-global) pool; the next request must not see it
 		keep := chain.cs
 		chain.cs = &c16Case{}
+		tap.cs = chain.cs
 		req0, _ := http.NewRequestWithContext(ctx, http.MethodPost, url, &c16FailBody{data: c16Bytes(vNewRand(uint64(len(cs.body))), 300, 2)})
 		if resp0, err0 := client.Do(req0); err0 == nil {
 			_ = resp0.Body.Close()
@@ -428,6 +521,32 @@ func c16Run(t *testing.T, cs *c16Case) {
 			t.Fatalf("request with a failing body reached the server (type %q)", cs.typ)
 		}
 		chain.cs = keep
+		tap.cs = keep
+	}
+	if cs.replay && cs.net {
+		// warm-up: establish the keep-alive connection the real request will reuse
+		chain.mu.Lock()
+		chain.warm = true
+		chain.mu.Unlock()
+		tap.cs = &c16Case{}
+		reqW, _ := http.NewRequestWithContext(ctx, http.MethodGet, url, nil)
+		respW, errW := client.Do(reqW)
+		if errW != nil {
+			// a body-less GET through the client does not get through: reported by the oracle; the
+			// case goes on without the fault
+			cs.warmFail = errW.Error()
+			cs.replay = false
+			chain.mu.Lock()
+			chain.warm = false
+			chain.mu.Unlock()
+		} else {
+			if respW.StatusCode != http.StatusNoContent {
+				t.Fatalf("warm-up request answered %d", respW.StatusCode)
+			}
+			_, _ = io.Copy(io.Discard, respW.Body)
+			_ = respW.Body.Close()
+		}
+		tap.cs = cs
 	}
 	var body io.Reader
 	if !cs.nilBody {
@@ -449,7 +568,31 @@ func c16Run(t *testing.T, cs *c16Case) {
 	if cs.preset != nil {
 		req.Header["Content-Encoding"] = append([]string(nil), cs.preset...)
 	}
+	if cs.replay && cs.net {
+		// replayable for net/http: body can be rewound and the request is declared idempotent.  The
+		// connection is dropped only if it really is a reused one (otherwise net/http does not retry).
+		req.Header.Set("Idempotency-Key", "c16")
+		first := true
+		req = req.WithContext(httptrace.WithClientTrace(ctx, &httptrace.ClientTrace{GotConn: func(info httptrace.GotConnInfo) {
+			if first && info.Reused {
+				chain.mu.Lock()
+				chain.drop = true
+				chain.mu.Unlock()
+			}
+			first = false
+		}}))
+	}
 	resp, err := client.Do(req)
+	cs.replayed = cs.firstSeen
+	if got := req.Header.Values("Content-Encoding"); strings.Join(got, "\x00") != strings.Join(cs.preset, "\x00") || len(got) != len(cs.preset) {
+		cs.callerMutated = true
+	}
+	if err != nil && cs.firstSeen && (cs.wireErr || !cs.captured) {
+		// the transport replayed (or gave up replaying) and the replay did not get through
+		cs.replayFail = err.Error()
+		cs.clientOK, cs.cstate = false, 2
+		return
+	}
 	if err != nil && (cs.rerr || cs.cerr) && !cs.captured {
 		// compress() returned the body's error: nothing was sent
 		cs.clientOK, cs.cstate = false, 2
@@ -458,7 +601,10 @@ func c16Run(t *testing.T, cs *c16Case) {
 	if err != nil {
 		// the only other expected failure: the server side panicked (nil decoder func)
 		if !cs.captured || cs.ran {
-			t.Fatalf("client.Do failed unexpectedly (class %s): %v", cs.class, err)
+			// no explanation within the model: reported by the oracle with the failing input
+			cs.doFail = err.Error()
+			cs.clientOK, cs.cstate = false, 2
+			return
 		}
 		cs.kind = 2
 		return
@@ -544,17 +690,45 @@ func (cs *c16Case) isCustom(k string) bool {
 }
 
 func c16Oracle(out *vOut, cs *c16Case, term string) {
-	if !cs.clientOK {
-		return
-	}
 	L := cs.effMax()
 	fail := func(kind, format string, a ...any) {
 		out.Oracle(kind, term, fmt.Sprintf("class=%s type=%q level=%d preset=%q max=%d algs=%q(nil=%v) custom=%v |body|=%d |wire|=%d kind=%d status=%d |data|=%d err=%d: ",
 			cs.class, cs.typ, cs.level, cs.preset, cs.max, cs.algs, cs.algsNil, cs.custom, len(cs.body), len(cs.wbody), cs.kind, cs.status, len(cs.data), cs.errc)+
 			fmt.Sprintf(format, a...))
 	}
+	// a request that net/http may replay must get through when it is replayed
+	if cs.replayFail != "" {
+		fail("replay-failed", "the server dropped the reused connection after receiving the request; the transport's replay did not get through: %s (first attempt: ce=%q cl=%d |body|=%d)",
+			cs.replayFail, cs.firstCE, cs.firstCL, len(cs.firstBody))
+	}
+	if cs.warmFail != "" {
+		fail("client-request-failed", "a body-less GET through the same client failed: %s", cs.warmFail)
+	}
+	if cs.doFail != "" {
+		fail("client-request-failed", "the request failed in the transport: %s", cs.doFail)
+	}
+	if cs.callerMutated {
+		fail("caller-request-mutated", "the caller's request was modified by the round tripper")
+	}
+	if !cs.clientOK {
+		return
+	}
+	// ... and the replay must be the same request: same header values, same bytes, same declared length
+	if cs.replayed && (!bytes.Equal(cs.firstBody, cs.wbody) || cs.firstCL != cs.wcl || strings.Join(cs.firstCE, "\x00") != strings.Join(cs.wce, "\x00")) {
+		fail("replay-differs", "replayed request differs from the first attempt: first ce=%q cl=%d |body|=%d, replay ce=%q cl=%d |body|=%d",
+			cs.firstCE, cs.firstCL, len(cs.firstBody), cs.wce, cs.wcl, len(cs.wbody))
+	}
+	// what GetBody of the request handed to the transport yields is what a replay sends: it must be the
+	// bytes that were sent, however often it is asked
+	if cs.tapped && cs.captured && cs.hasRewind && (!bytes.Equal(cs.rewind, cs.wbody) || !cs.rewindStable) {
+		fail("rewind-differs", "GetBody of the outgoing request yields %d bytes (stable=%v) but %d bytes were sent: a transport-level replay sends a different body",
+			len(cs.rewind), cs.rewindStable, len(cs.wbody))
+	}
 	compressing := c16CodecOfName(cs.typ) >= 0
 	enc := c16First(cs.wce)
+	if compressing && c16First(cs.preset) == "" && cs.tapped && !cs.hasRewind {
+		fail("rewind-missing", "the compressed request cannot be replayed by the transport (no GetBody)")
+	}
 	if cs.wcl != int64(len(cs.wbody)) && cs.wcl != -1 {
 		fail("wire-length", "declared length %d is neither the body size nor -1", cs.wcl)
 	}
@@ -703,14 +877,20 @@ func (cs *c16Case) term() string {
 			dt = append(dt, vPair(vN(uint64(k)), d))
 		}
 	}
-	return fmt.Sprintf("EC %s %s %s %s %s %s %s %s %s %s %s %s %s %s %s %s %s %s %s %s %s %s %s",
+	return fmt.Sprintf("EC %s %s %s %s %s %s %s %s %s %s %s %s %s %s %s %s %s %s %s %s %s %s %s %s",
 		vStr(cs.typ), vZ(int64(cs.level)), c16Strs(cs.preset), body, vBool(cs.chunked), vBool(cs.rerr), vBool(cs.cerr),
 		vZ(cs.max), algs, custom, vList(et), c16StreamTerm(decin), vList(dt),
-		vN(uint64(cs.cstate)), c16Strs(cs.wce), vBytes(cs.wbody), vZ(cs.wclObs()),
+		vN(uint64(cs.cstate)), c16Strs(cs.wce), vBytes(cs.wbody), vZ(cs.wclObs()), cs.rewindObs(),
 		vN(uint64(cs.kind)), vZ(int64(cs.statusObs())), c16Strs(cs.hceObs()), vZ(cs.clObs()), vBytes(cs.dataObs()), vN(uint64(cs.errcObs())))
 }
 
 // canonical observables: nothing about the handler unless it ran
+func (cs *c16Case) rewindObs() string {
+	if !cs.clientOK || !cs.hasRewind {
+		return "None"
+	}
+	return "(Some " + vBytes(cs.rewind) + ")"
+}
 func (cs *c16Case) wclObs() int64 {
 	if !cs.clientOK {
 		return 0
@@ -1105,6 +1285,14 @@ func c16Framing(r *vRand, cs *c16Case, pChunked int) {
 	if cs.chunked && c16CodecOfName(cs.typ) < 0 && c16First(cs.preset) == "" && !cs.large && r.Pick(55, 45) == 1 {
 		cs.max = int64(1 + r.Intn(len(cs.body))) // identity body without declared length, at or over the limit
 	}
+	// transport-level replay (fault injection, real connections only): the request must be replayable
+	// for net/http, i.e. its body can be rewound
+	if !cs.chunked && !cs.rerr && !cs.cerr && r.Pick(45, 55) == 1 {
+		if !cs.net && r.Pick(75, 25) == 1 {
+			cs.net = true
+		}
+		cs.replay = cs.net
+	}
 	cs.method = []string{http.MethodPost, http.MethodPost, http.MethodPut, http.MethodPatch, http.MethodDelete}[r.Intn(5)]
 }
 
@@ -1309,6 +1497,23 @@ func TestVerifC16(t *testing.T) {
 		}
 		if cs.chunked {
 			out.Stat("framing.client-body-without-length", 1)
+		}
+		if cs.replay {
+			if cs.replayed {
+				out.Stat("replay.connection-dropped-and-request-replayed", 1)
+				if c16CodecOfName(cs.typ) >= 0 && c16First(cs.preset) == "" {
+					out.Stat("replay.of-compressed-request", 1)
+				}
+			} else if cs.clientOK {
+				out.Stat("replay.connection-not-reused-no-fault", 1)
+			}
+		}
+		if cs.tapped {
+			if cs.hasRewind {
+				out.Stat("replay.rewindable", 1)
+			} else {
+				out.Stat("replay.not-rewindable", 1)
+			}
 		}
 		out.Stat("method."+cs.method, 1)
 		if cs.clientOK && cs.captured {
